@@ -78,5 +78,46 @@ theorem sliceIndices_ofPySlice (s : PySlice) (n : Nat) :
   have : ¬ ((n : Int) < 0) := by omega
   simp [this]
 
+/-! ### lists -/
+
+@[simp] theorem truthy_nil : truthy .nil = .ok false := rfl
+@[simp] theorem truthy_cons (a b : V) : truthy (.cons a b) = .ok true := rfl
+@[simp] theorem isNone_nil : isNone .nil = false := rfl
+@[simp] theorem isNone_cons (a b : V) : isNone (.cons a b) = false := rfl
+@[simp] theorem isNone_bool (b : Bool) : isNone (.bool b) = false := rfl
+@[simp] theorem isNone_str (s : String) : isNone (.str s) = false := rfl
+@[simp] theorem isIntegral_str (s : String) : isIntegral (.str s) = false := rfl
+
+@[simp] theorem ofList_nil : ofList [] = .nil := rfl
+@[simp] theorem ofList_cons (x : V) (xs : List V) : ofList (x :: xs) = .cons x (ofList xs) := rfl
+
+@[simp] theorem asList_ofList (l : List V) : asList (ofList l) = .ok (ofList l) := by
+  cases l <;> rfl
+
+@[simp] theorem len_ofList (l : List V) : len (ofList l) = .ok (.int (l.length : Nat)) := by
+  induction l with
+  | nil => rfl
+  | cons x xs ih => simp [len, ih]
+
+@[simp] theorem append_ofList (l : List V) (v : V) : append (ofList l) v = .ok (ofList (l ++ [v])) := by
+  induction l with
+  | nil => rfl
+  | cons x xs ih => simp [append, ih]
+
+theorem getNat_ofList (l : List V) (k : Nat) :
+    getNat (ofList l) k = match l[k]? with | some v => .ok v | Option.none => .error .indexError := by
+  induction l generalizing k with
+  | nil => cases k <;> rfl
+  | cons x xs ih => cases k with
+    | zero => rfl
+    | succ k => simp [getNat, ih]
+
+theorem getItem_ofList_nat (l : List V) (k : Nat) :
+    getItem (ofList l) (.int (k : Int)) =
+      match l[k]? with | some v => .ok v | Option.none => .error .indexError := by
+  unfold getItem
+  simp [getNat_ofList]
+  
+
 end V
 end Nb.Py
